@@ -145,7 +145,8 @@ def make_iterspec(I, st, it):
 TYPE_KINDS = {
     "bool": (K_BOOL,), "int": (K_BOOL, K_INT), "float": (K_FLOAT,), "str": (K_STR,), "list": (K_LIST,),
     "dict": (K_DICT,), "tuple": (), "numbers.Number": (K_BOOL, K_INT, K_FLOAT), "Sequence": (K_STR, K_LIST),
-    "collections.abc.Sequence": (K_STR, K_LIST),
+    "collections.abc.Sequence": (K_STR, K_LIST), "Mapping": (K_DICT,), "collections.abc.Mapping": (K_DICT,),
+    "MutableMapping": (K_DICT,), "collections.abc.MutableMapping": (K_DICT,),
 }
 
 
@@ -179,7 +180,9 @@ def prim_isinstance(I, st, x, tv):
             import numbers
             import collections.abc as cabc
             pyt = {"bool": bool, "int": int, "float": float, "str": str, "list": list, "dict": dict, "tuple": tuple,
-                   "numbers.Number": numbers.Number, "Sequence": cabc.Sequence, "collections.abc.Sequence": cabc.Sequence}
+                   "numbers.Number": numbers.Number, "Sequence": cabc.Sequence, "collections.abc.Sequence": cabc.Sequence,
+                   "Mapping": cabc.Mapping, "collections.abc.Mapping": cabc.Mapping,
+                   "MutableMapping": cabc.MutableMapping, "collections.abc.MutableMapping": cabc.MutableMapping}
             return [(st, SB(any(isinstance(x.conc, pyt[n]) for n in names)))]
         if not ks:
             return [(st, SB(False))]
